@@ -92,3 +92,9 @@ pub fn near_magic(w: &World, m: usize, cap: usize) -> usize {
     };
     v.clamp(1, cap)
 }
+
+/// Characters whose code point, cut down to its low byte by an `as u8`, is an ASCII character with
+/// a meaning in these formats (tab, LF, CR, NUL, blank, '"', '#', '+', ',', ';', '=', '>', '@', '-'):
+/// U+0109, U+010A, U+010D, U+0100, U+0120, U+0122, U+0123, U+012B, U+012C, U+013B, U+013D, U+013E,
+/// U+0140, U+200D, U+FF0D. None of them is white space.
+pub const LOW_BYTE_SPECIAL: [char; 15] = ['ĉ', 'Ċ', 'č', 'Ā', 'Ġ', 'Ģ', 'ģ', 'ī', 'Ĭ', 'Ļ', 'Ľ', 'ľ', 'ŀ', '\u{200d}', '－'];
